@@ -198,7 +198,7 @@ def plan_for(pid, tier, seed):
             gens = gens + ["ArenaGen_quick"]
         traces = arena_corpus(tier, seed, ARENA_GENS[pid])
         # the repository's own test suite as a driver: every arena operation its tests perform, via the API hooks
-        traces = traces + tj("suite", "repo-tests", tier, "dbg", 0, 4, ["ArenaMonitor", "ArenaTrace"], cap=3000 if tier == "quick" else 30000)
+        traces = traces + tj("suite", "repo-tests", tier, "dbg", 0, 4, ["ArenaMonitor", "ArenaTrace"], cap=3000 if tier == "quick" else 6000)
         # ... and the collections as clients of the arena
         traces = traces + client_corpus(tier, seed)
         if pid == "C18":
